@@ -29,9 +29,9 @@ type Config struct {
 	Realloc         string // exact | double | both
 	Preempt         int    // -1 unbounded
 	PoolDrops       bool
-	MaxThreads      int  // 0: 12
+	MaxThreads      int   // 0: 12
 	ClockTickNs     int64 // > 0: time.Now is a concrete clock advancing by this much per reading (default: arbitrary non-decreasing)
-	SchedFixed      bool // no scheduling choices: the running thread continues, else the enabled thread with the lowest id (scale runs)
+	SchedFixed      bool  // no scheduling choices: the running thread continues, else the enabled thread with the lowest id (scale runs)
 	NoRace          bool
 	ConcretizeIdx   bool
 	MaxPaths        int
